@@ -137,10 +137,60 @@ def run(ctx):
     tables(ctx)
     minmax(ctx)
     rebind(ctx)
+    rebind_order(ctx)
     ctx.floor("TAB-MACRO", 34)
     ctx.floor("TAB-MINMAX", 6)
     ctx.floor("ACC-REBIND", 12)
     ctx.floor("LINT", 8)
+
+
+def rebind_order(ctx):
+    """components are assigned in order: with the same place listed at positions k and k+1 the place must end up holding
+    component k+1 (for every adjacent pair of every arity 2..6, both macros)"""
+    src = "#![allow(unused)]\npub struct E(pub u8);\n#[inline(never)] pub fn sink1(a: u8) { loop {} }\n"
+    cases = []
+    for macro in ("try_rebind", "rebind_if_ok"):
+        for n in range(2, 7):
+            for k in range(n - 1):
+                pats = ["x" if j in (k, k + 1) else "v%d" % j for j in range(n)]
+                decl = "let mut x: u8 = 0; " + " ".join("let mut v%d: u8 = 0;" % j for j in range(n) if j not in (k, k + 1))
+                tup = "(" + ", ".join(["u8"] * n) + ")"
+                name = "o_%s_%d_%d" % (macro, n, k)
+                if macro == "try_rebind":
+                    body = "%s konst::try_rebind!{(%s) = r} sink1(x); Ok(())" % (decl, ", ".join(pats))
+                else:
+                    body = "%s konst::rebind_if_ok!{(%s) = r => sink1(x); } Ok(())" % (decl, ", ".join(pats))
+                src += "pub fn %s(r: Result<%s, E>) -> Result<(), E> { %s }\n" % (name, tup, body)
+                cases.append((macro, n, k, name))
+    prog, diag = witness_program(ctx, "w19o", src)
+    if prog is None:
+        ctx.violation("ORD-REBIND", "witness", "the rebind-order witness crate does not compile:\n%s" % diag[-2000:])
+        return
+    payload = ("vfield", ("p", 1), 0, 0)
+    for macro, n, k, name in cases:
+        key = "%s|arity%d|%d" % (macro, n, k)
+        b = prog.get("w19o::" + name)
+        if b is None:
+            ctx.violation("ORD-REBIND", key, "witness %s missing" % name)
+            continue
+        seen = False
+        for p in sym.paths_of(b, prog):
+            if p.kind == "unreachable" or ("is", ("p", 1), 0) not in p.conds:
+                continue
+            evs = [e for e in p.events if e[0] == "call" and e[1].startswith("w19o::sink")]
+            if len(evs) != 1:
+                continue
+            seen = True
+            got = evs[0][2][3]
+            want = ("field", payload, k + 1)
+            if got != want:
+                ctx.violation("ORD-REBIND", key, "%s! with %d components: the place listed at positions %d and %d ends up holding %s, expected component %d "
+                              "(components must be assigned left to right, as a destructuring assignment does)" % (macro, n, k, k + 1, show(got), k + 1),
+                              detail={"witness": name})
+        if not seen:
+            ctx.violation("ORD-REBIND", key + "|ok", "%s!: no Ok path reaches the code after the rebind" % macro)
+        ctx.instance("ORD-REBIND", key, sample={"macro": macro, "arity": n, "pair": [k, k + 1]})
+    ctx.floor("ORD-REBIND", 30)
 
 
 def lint(ctx):
